@@ -211,6 +211,52 @@ def _fs_table(ro_row="True,           False", strip_ret="can_be_mutable and not 
     return body + tbl + "\ndef is_uri(s):\n"
 
 
+# ---- the refactor seeded as C15-I: the str/bytes step and the alleged-prefix handling of from_string (and of the two
+#      prefix predicates) moved into module-level helpers; the if-chain over the kinds is kept, but its flags are computed
+#      from the tuple the helper returns
+H_FS_DEF = "def from_string(u, deep_immutable=False, name=u\"<unknown name>\"):\n"
+H_TO_BYTES = ("def _to_bytes_or_none(s):\n    if isinstance(s, str):\n        s = s.encode(\"utf-8\")\n"
+              "    if not isinstance(s, bytes):\n        return None\n    return s\n\n")
+H_SPLIT_HEAD = ("def _split_alleged_prefix(s):\n    alleged_immutable = s.startswith(ALLEGED_IMMUTABLE_PREFIX)\n"
+                "    alleged_readonly = s.startswith(ALLEGED_READONLY_PREFIX)\n")
+H_SPLIT_TAIL = "    return rest, alleged_immutable, alleged_readonly\n\n"
+H_SPLIT_SLIP = H_SPLIT_HEAD + "    rest = s.removeprefix(ALLEGED_IMMUTABLE_PREFIX).removeprefix(ALLEGED_READONLY_PREFIX)\n" + H_SPLIT_TAIL
+H_SPLIT_ONE = H_SPLIT_HEAD + ("    if alleged_immutable:\n        rest = s.removeprefix(ALLEGED_IMMUTABLE_PREFIX)\n"
+                              "    else:\n        rest = s.removeprefix(ALLEGED_READONLY_PREFIX)\n") + H_SPLIT_TAIL
+H_SPLIT_CHAIN = ("def _split_alleged_prefix(s):\n    if s.startswith(ALLEGED_IMMUTABLE_PREFIX):\n"
+                 "        return s[len(ALLEGED_IMMUTABLE_PREFIX):], True, False\n"
+                 "    elif s.startswith(ALLEGED_READONLY_PREFIX):\n        return s[len(ALLEGED_READONLY_PREFIX):], False, True\n"
+                 "    return s, False, False\n\n")
+H_TYPE_OLD = ("    if isinstance(u, str):\n        u = u.encode(\"utf-8\")\n    if not isinstance(u, bytes):\n"
+              "        raise TypeError(\"URI must be unicode string or bytes: %r\" % (u,))\n")
+H_TYPE_NEW = ("    given, u = u, _to_bytes_or_none(u)\n    if u is None:\n"
+              "        raise TypeError(\"URI must be unicode string or bytes: %r\" % (given,))\n")
+H_PREFIX_OLD = ("    s = u\n    can_be_mutable = can_be_writeable = not deep_immutable\n"
+                "    if s.startswith(ALLEGED_IMMUTABLE_PREFIX):\n        can_be_mutable = can_be_writeable = False\n"
+                "        s = s[len(ALLEGED_IMMUTABLE_PREFIX):]\n"
+                "    elif s.startswith(ALLEGED_READONLY_PREFIX):\n        can_be_writeable = False\n"
+                "        s = s[len(ALLEGED_READONLY_PREFIX):]\n")
+H_UNPACK = "    s, alleged_immutable, alleged_readonly = _split_alleged_prefix(u)\n"
+H_FLAGS = ("    can_be_mutable = not (deep_immutable or alleged_immutable)\n"
+           "    can_be_writeable = can_be_mutable and not alleged_readonly\n")
+H_PRED_GUARD = "    if isinstance(s, str):\n        s = s.encode(\"utf-8\")\n    if not isinstance(s, bytes):\n        return False\n"
+H_LIT_OLD = "def is_literal_file_uri(s):\n" + H_PRED_GUARD + (
+    "    return (s.startswith(b'URI:LIT:') or\n            s.startswith(ALLEGED_READONLY_PREFIX + b'URI:LIT:') or\n"
+    "            s.startswith(ALLEGED_IMMUTABLE_PREFIX + b'URI:LIT:'))\n")
+H_URI_OLD = "def has_uri_prefix(s):\n" + H_PRED_GUARD + (
+    "    return (s.startswith(b\"URI:\") or\n            s.startswith(ALLEGED_READONLY_PREFIX + b'URI:') or\n"
+    "            s.startswith(ALLEGED_IMMUTABLE_PREFIX + b'URI:'))\n")
+H_PRED_GUARD_NEW = "    s = _to_bytes_or_none(s)\n    if s is None:\n        return False\n"
+H_LIT_NEW = "def is_literal_file_uri(s):\n" + H_PRED_GUARD_NEW + "    return _split_alleged_prefix(s)[0].startswith(b'URI:LIT:')\n"
+H_URI_NEW = "def has_uri_prefix(s):\n" + H_PRED_GUARD_NEW + "    return _split_alleged_prefix(s)[0].startswith(b'URI:')\n"
+H_PRED_EDITS = [(U, H_LIT_OLD, H_LIT_NEW), (U, H_URI_OLD, H_URI_NEW)]
+
+
+def _fs_helpers(mid, expect, split=H_SPLIT_ONE, unpack=H_UNPACK, flags=H_FLAGS, more=(), note=""):
+    return M(mid, U, H_FS_DEF, H_TO_BYTES + split + H_FS_DEF, expect,
+             edits=[(U, H_TYPE_OLD, H_TYPE_NEW), (U, H_PREFIX_OLD, unpack + flags)] + H_PRED_EDITS + list(more), note=note)
+
+
 FS_CHAIN = _fs_chain()
 _ROWS_DIR2RO_UNGATED = [(p_, k_, None if k_ == "ReadonlyDirectoryURI" else g_, None if k_ == "ReadonlyDirectoryURI" else w_)
                         for (p_, k_, g_, w_) in _KINDS]
@@ -565,7 +611,53 @@ MUTANTS = [
       note="table-driven shape: the refused kind comes back as an error-less UnknownURI"),
     M("table-one-cut-for-both-prefixes", U, FS_CHAIN, _fs_table(cut="len(ALLEGED_READONLY_PREFIX)"), "C16.13",
       note="table-driven shape: 'imm.' is cut by len('ro.'), the kind behind it is not recognised"),
+    # ---- the if-chain kept, its flags computed from the tuple a prefix helper returns (C16.5/.9/.10/.13/.16 decide it by scenarios)
+    _fs_helpers("benign-prefix-flags-from-helper-tuple", None,
+                note="seeded C15-I with the slip repaired: _split_alleged_prefix strips at most one prefix and returns "
+                     "(rest, imm?, ro?); can_be_mutable / can_be_writeable are computed from them"),
+    _fs_helpers("benign-prefix-helper-if-chain-returns-flags", None, split=H_SPLIT_CHAIN,
+                note="the same refactor, the helper keeping the if/elif and returning the cut string with the two flags"),
+    _fs_helpers("benign-prefix-helper-chained-removeprefix", None, split=H_SPLIT_SLIP,
+                note="seeded C15-I as delivered: 'imm.ro.' stacked is peeled twice - breaks the grammar (C15), but the flags "
+                     "found still only lower the permission: no clause of C16 is broken"),
+    _fs_helpers("helper-flags-readonly-not-applied", "C16.17",
+                flags="    can_be_mutable = not (deep_immutable or alleged_immutable)\n    can_be_writeable = can_be_mutable\n",
+                note="the 'ro.' flag returned by the helper is dropped: ro. + writecap comes back writeable"),
+    _fs_helpers("helper-flags-context-only-with-prefix", "C16.17",
+                flags="    can_be_mutable = not (deep_immutable and alleged_immutable)\n"
+                      "    can_be_writeable = can_be_mutable and not alleged_readonly\n",
+                note="`or` became `and`: a deep-immutable context alone no longer refuses a mutable cap"),
+    _fs_helpers("helper-tuple-unpacked-in-wrong-order", "C16.17",
+                unpack="    s, alleged_readonly, alleged_immutable = _split_alleged_prefix(u)\n",
+                note="the helper's (rest, imm?, ro?) bound as (rest, ro?, imm?): imm. + mutable readcap is accepted"),
+    _fs_helpers("helper-returns-flags-swapped", "C16.17",
+                split=H_SPLIT_CHAIN.replace("True, False", "False, True", 1),
+                note="the helper reports 'imm.' as 'ro.': imm.URI:SSK-RO: gives a live mutable readcap"),
+    _fs_helpers("helper-cuts-imm-by-ro-length", "C16.13",
+                split=H_SPLIT_CHAIN.replace("s[len(ALLEGED_IMMUTABLE_PREFIX):]", "s[len(ALLEGED_READONLY_PREFIX):]"),
+                note="helper shape: 'imm.' is cut by len('ro.'), the kind behind it is not recognised and not refused"),
+    _fs_helpers("helper-shape-refusal-without-error", "C16.10",
+                more=[(U, "        error = e\n\n    return UnknownURI(u, error=error)\n\ndef is_uri(s):\n",
+                       "        return UnknownURI(u, error=e)\n\n    return UnknownURI(u)\n\ndef is_uri(s):\n")],
+                note="helper shape: the refused kind comes back as an error-less UnknownURI"),
     # ---- vanished anchor
     M("vanish-node-cache", NM, "                self._node_cache[memokey] = node  # note: WeakValueDictionary\n", "                pass\n", "ANALYSIS-ERROR"),
     M("vanish-wrap-dirnode-cap", U, "def wrap_dirnode_cap(filecap):", "def wrap_dirnode_capX(filecap):", "ANALYSIS-ERROR"),
 ]
+
+# ---- the refactor seeded as C18-I done faithfully: create_from_cap split into _memokey / _create_uncached / _check_blacklist
+#      (the text of the two function bodies is shared with the owner property's self-test)
+try:
+    from .C18 import _CFC_OLD, _CFC_SPLIT
+    _CFC_CALL = "self._create_uncached(writecap, readcap, deep_immutable, name)"
+    if _CFC_SPLIT.count(_CFC_CALL) == 1:
+        MUTANTS += [
+            M("split-create-from-cap-into-helpers", NM, _CFC_OLD, _CFC_SPLIT, "ANALYSIS-ERROR",
+              note="seeded C18-I with the slip repaired: C16.7 follows the context into self._create_uncached and is silent; "
+                   "C16.14/.15 (the cap strings stay whole) do not follow the parse into the helper yet: undecided, exit 2"),
+            M("split-helper-not-given-context", NM, _CFC_OLD,
+              _CFC_SPLIT.replace(_CFC_CALL, "self._create_uncached(writecap, readcap, False, name)"), "C16.7",
+              note="the split shape: the helper that parses the cap is handed False instead of deep_immutable"),
+        ]
+except ImportError:
+    pass
